@@ -90,8 +90,23 @@ pub fn render(ncom: usize, facts: &[Fact]) -> (String, String) {
     (text, db)
 }
 
+/// A price fact with a rational rate: on day `date`, 1 x = rate y; `db` = from the price database.
+#[derive(Clone, Copy, Debug, PartialEq)]
+pub struct GFact {
+    pub date: u32,
+    pub x: usize,
+    pub y: usize,
+    pub rate: Q,
+    pub db: bool,
+}
+
 /// Reference: set of acceptable rates for 1 `from` in `to` as of day `qd`; None = no chain.
 pub fn refprice(ncom: usize, facts: &[Fact], from: usize, to: usize, qd: u32) -> Option<Vec<Q>> {
+    let g: Vec<GFact> = facts.iter().map(|f| GFact { date: f.date, x: f.x, y: f.y, rate: Q::int(f.rate as i128), db: f.src == Src::Db }).collect();
+    refprice_q(ncom, &g, from, to, qd)
+}
+
+pub fn refprice_q(ncom: usize, facts: &[GFact], from: usize, to: usize, qd: u32) -> Option<Vec<Q>> {
     if from == to {
         return Some(vec![Q::ONE]);
     }
@@ -99,8 +114,8 @@ pub fn refprice(ncom: usize, facts: &[Fact], from: usize, to: usize, qd: u32) ->
     let mut edge: BTreeMap<(usize, usize), (bool, Vec<(u32, Q)>)> = BTreeMap::new();
     for f in facts {
         let k = (f.x.min(f.y), f.x.max(f.y));
-        let r = if f.x < f.y { Q::int(f.rate as i128) } else { Q::new(1, f.rate as i128) };
-        let db = f.src == Src::Db;
+        let r = if f.x < f.y { f.rate } else { Q::ONE.div(f.rate) };
+        let db = f.db;
         let e = edge.entry(k).or_insert((false, vec![]));
         if db && !e.0 {
             e.0 = true;
@@ -113,6 +128,7 @@ pub fn refprice(ncom: usize, facts: &[Fact], from: usize, to: usize, qd: u32) ->
     let mut usable: BTreeMap<(usize, usize), (bool, u32, Vec<Q>)> = BTreeMap::new();
     for (k, (db, v)) in &edge {
         if let Some(l) = v.iter().filter(|(d, _)| *d <= qd).map(|(d, _)| *d).max() {
+            // (qd - l) below cannot underflow: l <= qd
             usable.insert(*k, (*db, l, v.iter().filter(|(d, _)| *d == l).map(|(_, r)| *r).collect()));
         }
     }
